@@ -87,6 +87,13 @@ class RateOfChange(Case):
                                 yield w
                     else:
                         yield v
+        if self.params["lens"] == "same":
+            # float32 data whose differences float32 cannot hold (2**24 + 2 next to 1): the exact step is
+            # 16777217, in float32 arithmetic it would be 16777216; thresholds between and on the two
+            big = float(2**24 + 2)
+            for xs in ([big, 1.0, big], [1.0, big, 3.0, big]):
+                for thr in (16777216, 16777216.5, 16777215, 16777217):
+                    yield {"n": len(xs), "x": list(xs), "t": list(range(len(xs))), "thr": thr, "dtype": "float32", "keep": 1}
 
 
 def _normalised(a, n):
